@@ -105,9 +105,15 @@ func (i *interpreter) switchTo(g *gor) {
 
 // yield lets another goroutine run; it returns false if no other goroutine
 // can make progress (the caller is then deadlocked, or may fire a timer).
-func (i *interpreter) yield() bool {
+func (i *interpreter) yield() bool { return i.yieldHow(false) }
+
+// yieldHow(voluntary): a voluntary yield (a preemption decision) does not mark
+// the goroutine as blocked: it stays eligible whatever happens meanwhile.
+func (i *interpreter) yieldHow(voluntary bool) bool {
 	me := i.curG
-	me.blockedAt = i.progress
+	if !voluntary {
+		me.blockedAt = i.progress
+	}
 	n := len(i.gors)
 	var next *gor
 	for k := 1; k < n; k++ {
@@ -182,4 +188,64 @@ func (i *interpreter) blockUntilOr(op func() bool, lastResort func() bool, what 
 		}
 	}
 	i.progress++
+}
+
+// ---------------------------------------------------------------------------
+// Schedules at lock granularity (opt-in per harness: vPreemptAtLocks(n)).
+//
+// For code whose shared accesses all happen under their locks (which the lock-
+// discipline check establishes on the same paths), the only interleavings that
+// matter are those of whole critical sections. With preemption enabled, every
+// mutex acquisition while another interpreted goroutine can run is a decision
+// point: either go on, or let the others run first. The decision is a fresh
+// 1-bit input (sched_yield), so the path exploration forks over it like over
+// any other branch; at most n preemptions are taken on a path (context-switch
+// bound). A violation found on a path with a preemption depends on the
+// schedule: it is confirmed natively by the harness's stress function, not by
+// a deterministic replay.
+
+func (i *interpreter) maybePreempt(mu *value) {
+	w := i.w
+	if w.preemptLeft <= 0 || w.local != nil {
+		return
+	}
+	if len(w.preemptOn) > 0 && !w.preemptOn[mu] {
+		return // the harness named the locks of the shared objects: others belong to one goroutine
+	}
+	other := false
+	for _, g := range i.gors {
+		if g != i.curG && !g.done && g.id != 0 {
+			other = true
+			break
+		}
+	}
+	if !other {
+		return
+	}
+	t := w.newInput("sched_yield", 1)
+	if w.decide(mkEq(t, mkConst(1, 1))) {
+		w.preemptLeft--
+		w.preempted++
+		i.yieldHow(true)
+	}
+}
+
+// joinAll lets every other goroutine run to completion (the engine's
+// counterpart of WaitGroup.Wait, which is a no-op in the model).
+func (i *interpreter) joinAll() {
+	for {
+		pending := false
+		for _, g := range i.gors {
+			if g != i.curG && !g.done {
+				pending = true
+				break
+			}
+		}
+		if !pending {
+			return
+		}
+		if !i.yield() {
+			panic(blockEvent{"deadlock: goroutines that cannot finish", nil})
+		}
+	}
 }
